@@ -61,6 +61,15 @@ func TestMakeReplays(t *testing.T) {
 	write("C06", "c06", "mget-alias-batch", "alias filter over point reads panicked in batch mode", &c06Case{Query: "select key, int(value) as n where key in ('a', 'ab', 'abc', 'b') & n > 1", Pairs: abc})
 	write("C06", "c06", "render-long-trailing", "rendering a late error of a long query with 50 leading blanks panicked", &c06Case{Query: "                                                  " + "select key, key, key, key, key, key, key, key, key, key, key, key, key, key, key where key ^= 1", Pairs: abc})
 
+	// ---- round-3 repairs ------------------------------------------------------
+	write("C06", "c06", "quantile-negative", "quantile(int(value), 0 - 0.5) panicked when the result was read", &c06Case{Query: "select quantile(int(value), 0 - 0.5) where key ^= 'a'", Pairs: abc})
+	aggName := &lib.Stmt{Kind: "select", Fields: []lib.SelField{{E: lib.Call("strlen", lib.Key()), Alias: "g1"}, {E: lib.Call("count", lib.Int(1)), Alias: "a1"}, {E: lib.Bin("+", lib.Ref("a1", lib.TyInt), lib.Call("sum", lib.Call("int", lib.Value()))), Alias: "a2"}}, Where: lib.Bin("!=", lib.Key(), lib.Str("zz")), Group: []string{"g1"}}
+	write("C05", "c05", "aggregate-name-stale", "count(1) as a1, a1 + sum(int(value)) used the previous group's a1", &c05Case{Stmt: aggName, Pairs: abc, Batch: 2})
+	aggFwd := &lib.Stmt{Kind: "select", Fields: []lib.SelField{{E: lib.Bin("+", lib.Ref("a1", lib.TyInt), lib.Call("sum", lib.Call("int", lib.Value())))}, {E: lib.Call("count", lib.Int(1)), Alias: "a1"}}, Where: lib.Bin("!=", lib.Key(), lib.Str("zz"))}
+	write("C05", "c05", "aggregate-name-forward", "a1 + sum(int(value)), count(1) as a1 failed with Cannot find function count", &c05Case{Stmt: aggFwd, Pairs: abc, Batch: 2})
+	dupName := &lib.Stmt{Kind: "select", Fields: []lib.SelField{{E: lib.Key(), Alias: "t1"}, {E: lib.Value(), Alias: "t1"}}, Where: lib.Bin("!=", lib.Ref("t1", lib.TyText), lib.Str("x"))}
+	write("C05", "c05", "repeated-name", "key as t1, value as t1 where t1 != 'x' returned the key in both columns", &c05Case{Stmt: dupName, Pairs: abc, Batch: 2})
+
 	write("C03", "c03", "limit-skip-boundary", "limit 2,2 with batch size 2 returned rows 0-1", &c03Case{Stmt: &lib.Stmt{Kind: "select", Star: true, Where: lib.Bin("!=", lib.Key(), lib.Str("zz")), Lim: &lib.Limit{Start: 2, Count: 2, Two: true}}, Pairs: abc, Batch: 2, Batch2: 32})
 	write("C03", "c03", "in-split-row", "'1' in split(value, ',') failed row at a time only", &c03Case{Stmt: &lib.Stmt{Kind: "select", Fields: []lib.SelField{{E: lib.Key()}, {E: lib.Call("split", lib.Value(), lib.Str(","))}}, Where: lib.InList(lib.Str("1"), lib.Call("split", lib.Value(), lib.Str(",")))}, Pairs: abc, Batch: 2, Batch2: 32})
 	write("C03", "c03", "list-index-row", "list(1,2,3)[1] failed row at a time only", &c03Case{Stmt: &lib.Stmt{Kind: "select", Fields: []lib.SelField{{E: lib.Index(lib.Call("list", lib.Int(1), lib.Int(2), lib.Int(3)), 1)}}, Where: lib.Bin("^=", lib.Key(), lib.Str("a"))}, Pairs: abc, Batch: 2, Batch2: 32})
